@@ -44,8 +44,8 @@ CFGS = {
                       st.sampled_from([300, 1000, 10**6, CEIL, 2**40]), st.sampled_from([0, 1, 3, 15, 100])),
     "log16": st.builds(lambda w, d, mc, nr: {"kind": "log16", "width": w, "depth": d, "max_count": mc, "num_reserved": nr}, W, st.integers(1, 4),
                        st.sampled_from([70000, 10**6, CEIL, 2**40]), st.sampled_from([0, 1, 3, 15, 1023])),
-    "hh": st.builds(lambda w, d, m, phi: {"kind": "hh", "width": w, "depth": d, "max_key_len": m, "phi": phi}, st.sampled_from([1, 1, 2, 3, 8]), st.integers(1, 4),
-                    st.integers(1, 16), st.sampled_from([None, None, 0.01, 0.5, 1.0])),
+    "hh": st.builds(lambda w, d, m, phi, at: {"kind": "hh", "width": w, "depth": d, "max_key_len": m, "phi": phi, **({"argtype": at} if at else {})}, st.sampled_from([1, 1, 2, 3, 8, 70]), st.integers(1, 4),
+                    st.integers(1, 16), st.sampled_from([None, None, 0.01, 0.5, 1.0]), st.sampled_from([None, None, None, "u8", "i8", "u32", "i64", "u64", "i32"])),
     "hll": st.builds(lambda p, s: {"kind": "hll", "p": p, "seed": s}, st.integers(7, 16), SEEDS),
 }
 DEFAULTS = {"log8": (CEIL, 15), "log16": (CEIL, 1023)}
